@@ -168,6 +168,13 @@ def run(chk, ctx):
     chk.floor('C02.M', 14, 'properties on the encode side')
 
     # ---- decode side
+    from .. import tsrules as _ts
+    for cons_, okk_, why_ in _ts.decimal_decode_exact(ctx):
+        chk.ob('C02.T', cons_, okk_, why_, site='pamqp/decode.py::decimal')
+    from .c15 import decoder_utc
+    okk_, why_ = decoder_utc(ctx)
+    chk.ob('C02.T', 'decode.timestamp result zone', okk_, why_,
+           site='pamqp/decode.py::timestamp')
     # a decoded header is built from its frame alone
     from .c16 import decode_keeps_state
     kept_ = decode_keeps_state(ctx)
